@@ -18,13 +18,14 @@ def for_property(prop, tier):
 
 def bounded_coset_table(repo, work, tier, seed):
     """BOUNDED stand-in (never counted as proved): coset_table itself is outside the verifier's reach (Todd-Coxeter with coincidences,
-    RangeFrom loops, BTreeSet iteration, merge/compact).  The main clause of C11 is executed on a fixed list of seven small
-    presentations (S3 with three subgroups, Z2xZ2, Z5, a presentation with empty words, A4-like) on the real crate."""
+    RangeFrom loops, BTreeSet iteration, merge/compact).  The main clause of C11 is executed on a fixed list of thirteen small
+    presentations on the real crate."""
     import falsify
     res = {'name': 'bounded:coset_table', 'failures': [], 'undecided': [], 'obligations': 0, 'failed': 0, 'samples': [], 'trusted': [],
            'bounded': [{'function': 'fpgroups::cosets::coset_table', 'kind': 'bounded stand-in, NOT a proof',
-                        'bound': '7 fixed presentations with <= 2 generators and index <= 6 (replay/falsifier.rs, section C11)',
-                        'checks': 'row count = index, every generator a permutation whose inverse is the inverse generator, subgroup generators fix row 0'}]}
+                        'bound': '13 fixed presentations (<= 3 generators, index <= 60) and 210 pseudo-random subgroups (1-3 generators, words of length <= 4, fixed seed) of the Coxeter groups S4 and S5, index computed independently from the permutation representation (replay/falsifier.rs, section C11)',
+                        'checks': 'row count = index, every generator a permutation whose inverse is the inverse generator, transitive, '
+                                  'every relator closes at every row, subgroup generators fix row 0'}]}
     r = falsify.run('C11', repo)
     res['cmd'] = r['cmd']
     res['wall'] = r.get('wall')
@@ -33,12 +34,15 @@ def bounded_coset_table(repo, work, tier, seed):
         return res
     bad = [l for l in r['lines'] if l[0] == 'coset_table']
     res['bounded'][0]['result'] = 'no discrepancy' if not bad else '%d discrepancies' % len(bad)
-    if bad:
-        tag, inp, what = bad[0]
+    seen_inputs = set()
+    for tag, inp, what in bad:
+        if inp in seen_inputs:
+            continue
+        seen_inputs.add(inp)      # one failed bounded obligation per distinct input, so that known findings can be matched per input
         res['failures'].append({'unit': 'bounded', 'function': 'coset_table', 'kind': 'bounded', 'backend': 'executed on the real crate (bounded stand-in)',
                                 'message': what, 'site': inp, 'props': ['C11'], 'rendered': r['raw'][-1500:],
                                 'counterexample': {'source': 'replay/falsifier.rs executed on the real crate', 'function': 'coset_table', 'input': inp,
-                                                   'observed': what, 'all_discrepancies': len(bad), 'cmd': r['cmd']}})
+                                                   'observed': what, 'all_discrepancies': len([b for b in bad if b[1] == inp]), 'cmd': r['cmd']}})
     return res
 
 
